@@ -353,7 +353,7 @@ pub fn rv_to_gas(text: &str) -> Result<String, String> {
         let s = match (t[0], t.len()) {
             ("ADD", 4) if is_reg(t[3]) => format!("add {}, {}, {}", reg(t[1])?, reg(t[2])?, reg(t[3])?),
             ("ADD", 4) => format!("addi {}, {}, {}", reg(t[1])?, reg(t[2])?, t[3]),
-            ("SUB" | "MUL" | "DIV" | "REM", 4) => format!("{} {}, {}, {}", t[0].to_lowercase(), reg(t[1])?, reg(t[2])?, reg(t[3])?),
+            ("SUB" | "MUL" | "DIV" | "REM" | "ADDW" | "SUBW" | "MULW" | "DIVW" | "REMW" | "DIVU" | "REMU" | "AND" | "OR" | "XOR" | "SLT" | "SLTU" | "SLL" | "SRL" | "SRA", 4) => format!("{} {}, {}, {}", t[0].to_lowercase(), reg(t[1])?, reg(t[2])?, reg(t[3])?),
             ("JAL", 3) => format!("jal {}, {}", reg(t[1])?, t[2]),
             ("JALR", 4) => format!("jalr {}, {}({})", reg(t[1])?, t[3], reg(t[2])?),
             ("LA", 3) => format!("la {}, {}", reg(t[1])?, t[2]),
